@@ -95,6 +95,29 @@ func runC19(c *ctx) {
 				"--upstream-host=" + strings.TrimPrefix(up.URL, "http://"), fmt.Sprintf("--shutdown-wait-before-period=%dms", sc.wait), fmt.Sprintf("--shutdown-graceful-period=%dms", sc.grace)}
 			cmd := exec.Command(bin, args...)
 			cmd.Env = []string{"PATH=" + os.Getenv("PATH"), "HOME=/tmp"}
+			// scenarios with a request that cannot finish (forced exit) also run with tracing ON towards a collector that accepts connections and never answers:
+			// whatever is registered to run at exit, the forced exit happens at the end of the graceful period
+			stalled := false
+			for _, rq := range sc.reqs {
+				if rq.dur > sc.grace {
+					stalled = true
+				}
+			}
+			if stalled {
+				if bl, err := net.Listen("tcp", "127.0.0.1:0"); err == nil {
+					defer bl.Close()
+					go func() {
+						for {
+							cn, err := bl.Accept()
+							if err != nil {
+								return
+							}
+							defer cn.Close() // held open, never answered
+						}
+					}()
+					cmd.Env = append(cmd.Env, "OTEL_EXPORTER_OTLP_ENDPOINT=http://"+bl.Addr().String(), "OTEL_EXPORTER_OTLP_PROTOCOL=http/protobuf")
+				}
+			}
 			var out bytes.Buffer
 			cmd.Stdout, cmd.Stderr = &out, &out
 			if err := cmd.Start(); err != nil {
